@@ -2299,6 +2299,7 @@ PACKAGE_SIGNATURES = {}    # callable name -> list of positional parameter name 
 
 # documented first parameters of the gevent calls the package uses (Event.wait / AsyncResult.wait / Greenlet.join(timeout=None), gevent.sleep(seconds=0));
 # consulted only for a name the package itself does not define
+PACKAGE_DEFAULTS = {}      # callable name -> parameter -> set of constant default texts over all definitions (set by restore.restore_package)
 EXTERNAL_SIGNATURES = {'wait': [['timeout']], 'join': [['timeout']], 'sleep': [['seconds']]}
 
 
@@ -2307,21 +2308,46 @@ def keywords_to_positional(fnode, bsrc, stats):
   and every definition of that name in the package has the parameter at the same position (all positions before it are filled)."""
   base_kw = {}
   base_calls = set()
+  base_maxpos = {}
   for c in ast.walk(bsrc):
     if isinstance(c, ast.Call):
       nm = c.func.attr if isinstance(c.func, ast.Attribute) else c.func.id if isinstance(c.func, ast.Name) else None
       if nm:
         base_calls.add(nm)
+        base_maxpos[nm] = max(base_maxpos.get(nm, 0), len(c.args))
         for k in c.keywords:
           if k.arg:
             base_kw.setdefault(nm, set()).add(k.arg)
   for c in ast.walk(fnode):
+    if isinstance(c, ast.Call) and not c.keywords and c.args and not any(isinstance(a, ast.Starred) for a in c.args):
+      # trailing positional arguments that spell out the constant default
+      nm = c.func.attr if isinstance(c.func, ast.Attribute) else c.func.id if isinstance(c.func, ast.Name) else None
+      sigs = PACKAGE_SIGNATURES.get(nm)
+      dfl = PACKAGE_DEFAULTS.get(nm) or {}
+      recv = ast.unparse(c.func.value).split('.')[-1] if isinstance(c.func, ast.Attribute) else ''
+      if recv[:1].isupper() or recv.lstrip('_')[:1].isupper():
+        continue       # Class.method(obj, ...): positions are shifted by the explicit receiver
+      while nm in base_calls and sigs and len(c.args) > base_maxpos.get(nm, 0) and isinstance(c.args[-1], ast.Constant):
+        names = set(sg[len(c.args) - 1] if len(c.args) - 1 < len(sg) else None for sg in sigs)
+        if len(names) != 1 or None in names or dfl.get(list(names)[0]) != {ast.unparse(c.args[-1])}:
+          break
+        c.args.pop()
+        stats['default_args_dropped'] = stats.get('default_args_dropped', 0) + 1
+      continue
     if not (isinstance(c, ast.Call) and c.keywords) or any(k.arg is None for k in c.keywords) or any(isinstance(a, ast.Starred) for a in c.args):
       continue
     nm = c.func.attr if isinstance(c.func, ast.Attribute) else c.func.id if isinstance(c.func, ast.Name) else None
     sigs = PACKAGE_SIGNATURES.get(nm) or EXTERNAL_SIGNATURES.get(nm)
     if not nm or not sigs or nm not in base_calls:
       continue
+    # a keyword (or trailing positional) argument that spells out the constant default every definition of the name has, where the reference
+    # function calls the same callee without it
+    dfl = PACKAGE_DEFAULTS.get(nm) or {}
+    for k in list(c.keywords):
+      if isinstance(k.value, ast.Constant) and dfl.get(k.arg) == {ast.unparse(k.value)} and k.arg not in base_kw.get(nm, set()) \
+         and all(k.arg not in sg[:base_maxpos.get(nm, 0)] for sg in sigs):
+        c.keywords.remove(k)
+        stats['default_args_dropped'] = stats.get('default_args_dropped', 0) + 1
     changed = True
     while changed and c.keywords:
       changed = False
@@ -2334,6 +2360,8 @@ def keywords_to_positional(fnode, bsrc, stats):
       kw = [k for k in c.keywords if k.arg == pn]
       if not kw or pn in base_kw.get(nm, set()):
         break
+      if base_kw.get(nm) and pos >= base_maxpos.get(nm, 0):
+        break       # the reference passes keywords to this callee and never fills this position: the keyword may be its (renamed) keyword
       # evaluation order: keywords are evaluated in call order; moving the FIRST keyword to the end of the positionals keeps it
       if c.keywords[0] is not kw[0]:
         if not all(_is_pure(k.value) for k in c.keywords[:c.keywords.index(kw[0]) + 1]):
@@ -2598,6 +2626,18 @@ def rename_function(fnode, rel, qualname, base_funcs, stats):
   except Exception as e:
     stats['temps_error'] = repr(e)
   try:
+    rebind_param_temps(fnode, base, base_source_fn(rel, qualname), stats)
+    restore_or_defaults(fnode, base_source_fn(rel, qualname), stats)
+    params, locs = local_defs_fp(fnode)
+    mapping = match_names(params, locs, base)
+    if mapping:
+      stats['renamed'] = stats.get('renamed', 0) + len(mapping)
+      r = _Rename(mapping)
+      fnode.args = r.visit(fnode.args)
+      fnode.body = [r.visit(s) for s in fnode.body]
+  except Exception as e:
+    stats['rebind_error'] = repr(e)
+  try:
     strip_bool_in_tests(fnode, stats)
     restore_while_tests(fnode, set(base.get('whiles', [])), stats)
   except Exception as e:
@@ -2618,10 +2658,105 @@ def rename_function(fnode, rel, qualname, base_funcs, stats):
     orient_compares(fnode, set(base.get('compares', [])), stats)
   except Exception as e:
     stats['orient_error'] = repr(e)
+  try:
+    drop_trailing_none_returns(fnode, base_source_fn(rel, qualname), stats)
+  except Exception as e:
+    stats['tail_return_error'] = repr(e)
   # nested functions (by their, possibly renamed, names)
   for n in own_nodes(fnode):
     if isinstance(n, (ast.FunctionDef, ast.AsyncFunctionDef)):
       rename_function(n, rel, qualname + '.' + n.name, base_funcs, stats)
+
+
+def restore_or_defaults(fnode, bsrc, stats):
+  """if not X: X = D   ->   X = X or D      (where the reference function has exactly that statement)."""
+  if bsrc is None:
+    return
+  ref = set(ast.unparse(n) for n in ast.walk(bsrc) if isinstance(n, ast.Assign) and isinstance(n.value, ast.BoolOp) and isinstance(n.value.op, ast.Or))
+  if not ref:
+    return
+  for parent in [fnode] + [n for n in own_nodes(fnode)]:
+    for fld in ('body', 'orelse', 'finalbody'):
+      body = getattr(parent, fld, None)
+      if not isinstance(body, list):
+        continue
+      for i, st in enumerate(body):
+        if isinstance(st, ast.If) and not st.orelse and len(st.body) == 1 and isinstance(st.test, ast.UnaryOp) and isinstance(st.test.op, ast.Not) \
+           and isinstance(st.test.operand, ast.Name) and isinstance(st.body[0], ast.Assign) and len(st.body[0].targets) == 1 \
+           and isinstance(st.body[0].targets[0], ast.Name) and st.body[0].targets[0].id == st.test.operand.id:
+          x = st.test.operand.id
+          new = ast.Assign(targets=[ast.Name(id=x, ctx=ast.Store())], value=ast.BoolOp(op=ast.Or(), values=[ast.Name(id=x, ctx=ast.Load()), st.body[0].value]))
+          ast.fix_missing_locations(ast.copy_location(new, st))
+          if ast.unparse(new) in ref:
+            body[i] = new
+            stats['or_defaults'] = stats.get('or_defaults', 0) + 1
+  ast.fix_missing_locations(fnode)
+
+
+def rebind_param_temps(fnode, base, bsrc, stats):
+  """`T = E(P)` for a parameter P that the reference function rebinds (`P = E(P)`), where T is a new name: T is P again when P is never
+  stored here, T is stored once, in a top-level statement of the body, and P is not read after that statement nor in any nested function."""
+  if bsrc is None:
+    return
+  params, locs = local_defs_fp(fnode)
+  known = set(base.get('params', [])) | set(b[0] for b in base.get('locals', []))
+  bl = {}       # parameter -> texts of the values the reference function rebinds it to
+  for n in ast.walk(bsrc):
+    if isinstance(n, ast.Assign) and len(n.targets) == 1 and isinstance(n.targets[0], ast.Name) and n.targets[0].id in base.get('params', []):
+      bl.setdefault(n.targets[0].id, set()).add(ast.unparse(n.value))
+  stores = {}
+  for n in own_nodes(fnode):
+    if isinstance(n, ast.Name) and isinstance(n.ctx, (ast.Store, ast.Del)):
+      stores[n.id] = stores.get(n.id, 0) + 1
+  for nm, fps in locs:
+    if nm in known or stores.get(nm) != 1:
+      continue
+    for P in params:
+      if P not in bl or P in stores:
+        continue
+      idx = [i for i, st in enumerate(fnode.body) if isinstance(st, ast.Assign) and len(st.targets) == 1 and isinstance(st.targets[0], ast.Name) and st.targets[0].id == nm]
+      if len(idx) != 1 or ast.unparse(fnode.body[idx[0]].value) not in bl[P]:
+        continue
+      i = idx[0]
+      nested = [x for st in fnode.body for d in ast.walk(st) if isinstance(d, (ast.FunctionDef, ast.AsyncFunctionDef, ast.Lambda, ast.GeneratorExp)) for x in ast.walk(d)]
+      if any(isinstance(x, ast.Name) and x.id == P for x in nested):
+        continue
+      if any(isinstance(x, ast.Name) and x.id == P for st in fnode.body[i + 1:] for x in ast.walk(st)):
+        continue
+      if any(isinstance(x, ast.Name) and x.id == nm for st in fnode.body[:i] for x in ast.walk(st)):
+        continue
+      r = _Rename({nm: P})
+      fnode.body = fnode.body[:i] + [r.visit(st) for st in fnode.body[i:]]
+      stats['param_rebound'] = stats.get('param_rebound', 0) + 1
+      break
+  ast.fix_missing_locations(fnode)
+
+
+def drop_trailing_none_returns(fnode, bsrc, stats):
+  """A `return` / `return None` in tail position of the function body (last statement, through trailing if/else and with blocks) is what
+  falling off the end does; dropped when the reference function spells no such return anywhere."""
+  if bsrc is None or any(isinstance(n, ast.Return) and (n.value is None or (isinstance(n.value, ast.Constant) and n.value.value is None)) for n in ast.walk(bsrc)):
+    return
+  if any(isinstance(n, (ast.Yield, ast.YieldFrom)) for n in own_nodes(fnode)):
+    return
+
+  def tail(body):
+    if not body:
+      return
+    last = body[-1]
+    if isinstance(last, ast.Return) and (last.value is None or (isinstance(last.value, ast.Constant) and last.value.value is None)):
+      body.pop()
+      if not body:
+        body.append(ast.copy_location(ast.Pass(), last))
+      stats['tail_returns_dropped'] = stats.get('tail_returns_dropped', 0) + 1
+      tail(body)
+    elif isinstance(last, ast.If):
+      tail(last.body)
+      tail(last.orelse)
+    elif isinstance(last, (ast.With, ast.AsyncWith)):
+      tail(last.body)
+  tail(fnode.body)
+  ast.fix_missing_locations(fnode)
 
 
 # ---------------------------------------------------------------- inlining
@@ -3164,6 +3299,146 @@ def reclose_partials(tree, rel, inventory, stats):
         c.body = [s_ for s_ in c.body if s_ is not helper] or [ast.Pass()]
 
 
+def reclose_module_partials(tree, rel, inventory, stats):
+  """functools.partial(_NewFunction, a, b, ...) where _NewFunction is a module-level function that the reference tree does not have and that
+  is used in no other way: turned back into a nested function of the caller.  A bound argument that is a name bound once in the caller (and
+  no loop variable) is closed over; any other bound expression is evaluated into a local where the partial was made, which is only done when
+  the partial call is the whole right-hand side / returned value of its statement and the statement is not inside a loop.
+  `X = functools.partial(...)` with X bound once becomes `def X(...)`."""
+  known = set(inventory.get(rel, []))
+  new = dict((d.name, d) for d in tree.body if isinstance(d, ast.FunctionDef) and d.name not in known and not d.decorator_list
+             and not (d.args.vararg or d.args.kwarg or d.args.kwonlyargs or d.args.defaults)
+             and not any(isinstance(n, (ast.Yield, ast.YieldFrom, ast.Await, ast.Global, ast.Nonlocal)) for n in ast.walk(d)))
+  if not new:
+    return
+  outer = []       # outermost functions (module level and methods)
+  def collect(body):
+    for st in body:
+      if isinstance(st, ast.ClassDef):
+        collect(st.body)
+      elif isinstance(st, (ast.FunctionDef, ast.AsyncFunctionDef)):
+        outer.append(st)
+  collect(tree.body)
+  uses = dict((n, []) for n in new)
+  first_args = set()
+  for caller in outer:
+    for node in ast.walk(caller):
+      if isinstance(node, ast.Call) and ast.unparse(node.func) in ('functools.partial', 'partial') and node.args and isinstance(node.args[0], ast.Name) \
+         and node.args[0].id in new and caller is not new[node.args[0].id]:
+        uses[node.args[0].id].append((caller, node))
+        first_args.add(id(node.args[0]))
+  other = set(n.id for n in ast.walk(tree) if isinstance(n, ast.Name) and n.id in new and id(n) not in first_args)
+  for name, helper in new.items():
+    if name in other or not uses[name]:
+      continue
+    hparams = [a.arg for a in helper.args.posonlyargs + helper.args.args]
+    hstored = set(x.id for x in ast.walk(helper) if isinstance(x, ast.Name) and isinstance(x.ctx, (ast.Store, ast.Del)))
+    done = 0
+    for caller, call in uses[name]:
+      bound = list(call.args[1:])
+      if call.keywords or len(bound) > len(hparams) or any(isinstance(b, ast.Starred) for b in bound) or any(p_ in hstored for p_ in hparams[:len(bound)]):
+        continue
+      assigned = {}
+      for n_ in ast.walk(caller):
+        if isinstance(n_, ast.Name) and isinstance(n_.ctx, (ast.Store, ast.Del)):
+          assigned[n_.id] = assigned.get(n_.id, 0) + 1
+      loopvars = set(x.id for lp in ast.walk(caller) if isinstance(lp, (ast.For, ast.comprehension)) for x in ast.walk(lp.target) if isinstance(x, ast.Name))
+      cparams = set(a.arg for fn_ in ast.walk(caller) if isinstance(fn_, (ast.FunctionDef, ast.AsyncFunctionDef, ast.Lambda)) for a in fn_.args.posonlyargs + fn_.args.args)
+      allnames = set(x.id for x in ast.walk(caller) if isinstance(x, ast.Name)) | cparams
+      # the statement list and statement that hold the call (innermost), and whether a loop or a nested function lies between
+      def find(body, in_loop):
+        for i, st in enumerate(body):
+          if isinstance(st, (ast.FunctionDef, ast.AsyncFunctionDef, ast.ClassDef)):
+            continue
+          if not any(x is call for x in ast.walk(st)):
+            continue
+          for fld in ('body', 'orelse', 'finalbody', 'handlers'):
+            sub = getattr(st, fld, None)
+            if isinstance(sub, list):
+              for h_ in sub:
+                if isinstance(h_, ast.ExceptHandler):
+                  r_ = find(h_.body, in_loop)
+                  if r_:
+                    return r_
+              r_ = find([x for x in sub if isinstance(x, ast.stmt)], in_loop or isinstance(st, (ast.For, ast.While, ast.AsyncFor))) if sub and isinstance(sub[0], ast.stmt) else None
+              if r_:
+                return (sub, r_[1], r_[2]) if r_[0] is None else r_
+          return (None, st, in_loop)
+        return None
+      def locate(body, in_loop):
+        for i, st in enumerate(body):
+          if isinstance(st, (ast.FunctionDef, ast.AsyncFunctionDef, ast.ClassDef)) or not any(x is call for x in ast.walk(st)):
+            continue
+          for fld in ('body', 'orelse', 'finalbody'):
+            sub = getattr(st, fld, None)
+            if isinstance(sub, list) and sub and isinstance(sub[0], ast.stmt):
+              r_ = locate(sub, in_loop or isinstance(st, (ast.For, ast.While, ast.AsyncFor)))
+              if r_:
+                return r_
+          for h_ in getattr(st, 'handlers', []) or []:
+            r_ = locate(h_.body, in_loop)
+            if r_:
+              return r_
+          return (body, i, in_loop)
+        return None
+      loc = locate(caller.body, False)
+      if loc is None:
+        continue       # (inside a nested function or lambda of the caller: left alone)
+      block, idx, in_loop = loc
+      st = block[idx]
+      whole = isinstance(st, (ast.Assign, ast.Return, ast.Expr)) and st.value is call
+      mapping, pre, ok = {}, [], True
+      for pn, b in zip(hparams, bound):
+        if isinstance(b, ast.Name) and b.id not in loopvars and (assigned.get(b.id, 0) == 1 or (b.id in cparams and assigned.get(b.id, 0) == 0)):
+          mapping[pn] = ast.Name(id=b.id, ctx=ast.Load())
+        elif isinstance(b, ast.Constant):
+          mapping[pn] = b
+        elif whole and not in_loop:
+          tn = pn if pn not in allnames else pn + '__b'
+          if tn in allnames:
+            ok = False
+            break
+          allnames.add(tn)
+          pre.append(ast.copy_location(ast.Assign(targets=[ast.Name(id=tn, ctx=ast.Store())], value=b), st))
+          mapping[pn] = ast.Name(id=tn, ctx=ast.Load())
+        else:
+          ok = False
+          break
+      if not ok:
+        continue
+      rest_params = hparams[len(bound):]
+      # names of the helper body must mean the same in the caller: its free names are module-level names that the caller does not rebind
+      hlocals = hstored | set(hparams)
+      free = set(x.id for x in ast.walk(helper) if isinstance(x, ast.Name) and x.id not in hlocals)
+      if free & (set(assigned) | cparams):
+        continue
+      if (hstored | set(rest_params)) & (set(x.id for m_ in mapping.values() for x in ast.walk(m_) if isinstance(x, ast.Name))):
+        continue       # a local of the helper would capture a closed-over name
+      body = [_Subst(mapping).visit(copy.deepcopy(s_)) for s_ in helper.body
+              if not (isinstance(s_, ast.Expr) and isinstance(s_.value, ast.Constant) and isinstance(s_.value.value, str))]
+      as_def = whole and isinstance(st, ast.Assign) and len(st.targets) == 1 and isinstance(st.targets[0], ast.Name) and assigned.get(st.targets[0].id, 0) == 1 \
+        and st.targets[0].id not in loopvars and not in_loop
+      dname = st.targets[0].id if as_def else name.lstrip('_') + '__c'
+      nested = ast.FunctionDef(name=dname, args=ast.arguments(posonlyargs=[], args=[ast.arg(arg=p_) for p_ in rest_params], vararg=None, kwonlyargs=[], kw_defaults=[], kwarg=None, defaults=[]),
+                               body=body or [ast.Pass()], decorator_list=[], lineno=call.lineno, col_offset=0)
+      try:
+        nested.type_params = []
+      except Exception:
+        pass
+      if as_def:
+        block[idx:idx + 1] = pre + [nested]
+      else:
+        if in_loop and not all(isinstance(m_, ast.Constant) or True for m_ in mapping.values()):
+          continue
+        _replace_node(caller, call, ast.Name(id=dname, ctx=ast.Load()))
+        block[idx:idx] = pre + [nested]
+      ast.fix_missing_locations(caller)
+      done += 1
+      stats['reclosed'] = stats.get('reclosed', 0) + 1
+    if done == len(uses[name]):
+      tree.body = [s_ for s_ in tree.body if s_ is not helper]
+
+
 def inline_new_helpers(tree, rel, inventory, stats):
   """Inline private helpers that are not part of the reference inventory (module level
   functions and methods of the classes of this module)."""
@@ -3398,6 +3673,7 @@ def normalize_module(tree, rel, stats=None):
     stats['with_error'] = repr(e)
   try:
     reclose_partials(tree, rel, b.get('inventory', {}), stats)
+    reclose_module_partials(tree, rel, b.get('inventory', {}), stats)
   except Exception as e:
     stats['reclose_error'] = repr(e)
   try:
